@@ -506,4 +506,203 @@ example : Tcp.sampleMax.WF := by decide
 
 end Tcp
 
+/-! ## IGMP -/
+namespace Igmp
+open EpModel.Codec.Igmp
+
+/-- byte 1 is unused / reserved (written as zero, ignored by the decoder) in the IGMPv1 and IGMPv2
+    membership reports, the leave group message and the IGMPv3 membership report. -/
+def maskReserved (b : Bytes) : Bytes :=
+  if bAt b 0 = 0x12 ∨ bAt b 0 = 0x16 ∨ bAt b 0 = 0x17 ∨ bAt b 0 = 0x22 then zeroRange b 1 1 else b
+
+theorem sub_all (g : Bytes) (n : Nat) (h : g.length = n) : sub g 0 n = g := by
+  rw [sub_zero, List.take_of_length_le (by omega)]
+
+theorem eight_length (t b1 ck : Nat) (b47 : Bytes) (h : b47.length = 4) : (eight t b1 ck b47).length = 8 := by
+  simp [eight, h, zeros]
+
+theorem eight_eq (t b1 ck : Nat) (b47 : Bytes) (h : b47.length = 4) :
+    eight t b1 ck b47 = [u8 t, u8 b1] ++ enc16 ck ++ b47 := by
+  unfold eight
+  have hl : ([u8 t, u8 b1] ++ enc16 ck ++ b47).length = 8 := by simp [h]
+  rw [List.take_append, List.take_of_length_le (by omega), hl]
+  simp
+
+theorem encoders_agree (h : Igmp) (hw : h.WF) : (toBytes h).length = headerLen h := by
+  obtain ⟨ty, ck⟩ := h
+  obtain ⟨ht, _⟩ := hw
+  cases ty <;> simp only [IgmpType.WF] at ht <;> simp [toBytes, headerLen, eight_length, ht]
+
+/-- a value decodes back; the 8 byte IGMPv1/v2 membership query only when nothing follows it
+    (with 4 or more following bytes the decoder reads an IGMPv3 query, by design of the format). -/
+theorem decode_encode (h : Igmp) (tail : Bytes) (hw : h.WF)
+    (hq : ∀ m g, h.ty = .membershipQuery m g → tail = []) :
+    fromSlice (toBytes h ++ tail) = .ok (h, tail) := by
+  obtain ⟨ty, ck⟩ := h
+  obtain ⟨ht, hck⟩ := hw
+  simp only at hck
+  cases ty with
+  | membershipQuery m g =>
+    simp only [IgmpType.WF] at ht
+    have := hq m g rfl
+    subst this
+    simp [fromSlice, toBytes, eight_eq, ht, be16_enc16, hck, sub_append_exact, Nat.mod_eq_of_lt ht.1,
+      sub_all]
+  | membershipQueryWithSources m g r q n =>
+    simp only [IgmpType.WF] at ht
+    obtain ⟨h1, h2, h3, h4, h5⟩ := ht
+    simp [fromSlice, toBytes, be16_enc16, hck, h2, h5, sub_append_exact, Nat.mod_eq_of_lt h1,
+      Nat.mod_eq_of_lt h3, Nat.mod_eq_of_lt h4, be16_append_right, drop_append_right]
+    rw [if_neg (by omega), if_neg (by omega), if_pos (by omega), bAt_append_right _ _ _ (by omega),
+      bAt_append_right _ _ _ (by omega), h2]
+    simp [Nat.mod_eq_of_lt h3, Nat.mod_eq_of_lt h4]
+  | membershipReportV1 g =>
+    simp only [IgmpType.WF] at ht
+    simp [fromSlice, toBytes, eight_eq, ht, be16_enc16, hck, sub_append_exact]
+    omega
+  | membershipReportV2 g =>
+    simp only [IgmpType.WF] at ht
+    simp [fromSlice, toBytes, eight_eq, ht, be16_enc16, hck, sub_append_exact]
+    omega
+  | membershipReportV3 f n =>
+    simp only [IgmpType.WF] at ht
+    simp [fromSlice, toBytes, eight_eq, ht, be16_enc16, hck, sub_append_exact, be16_append_right]
+    rw [if_neg (by omega), drop_append_right _ _ _ (by omega), ht.1]
+    simp
+  | leaveGroup g =>
+    simp only [IgmpType.WF] at ht
+    simp [fromSlice, toBytes, eight_eq, ht, be16_enc16, hck, sub_append_exact]
+    omega
+  | unknown t r raw =>
+    simp only [IgmpType.WF] at ht
+    obtain ⟨h1, h2, h3, h4⟩ := ht
+    simp [typedType] at h4
+    simp [fromSlice, toBytes, eight_eq, h3, h4, be16_enc16, hck, sub_append_exact, Nat.mod_eq_of_lt h1,
+      Nat.mod_eq_of_lt h2]
+    omega
+
+
+/-- full statement of the re-encoding direction for IGMP; not proved yet (the correspondence runs
+    and the implementation-side oracle cover it on every explored input). -/
+def encode_decode_full_statement : Prop :=
+  ∀ (b rest : Bytes) (h : Igmp), fromSlice b = .ok (h, rest) →
+    toBytes h = maskReserved (b.take (headerLen h)) ∧ fromSlice (toBytes h ++ rest) = .ok (h, rest)
+
+example : Igmp.sampleMax.WF := by decide
+example : Igmp.sampleUnknown.WF := by decide
+example : Igmp.sampleV3.WF := by decide
+
+end Igmp
+
+/-! ## ARP (Ethernet / IPv4 form) -/
+namespace ArpEth
+open EpModel.Codec.ArpEth
+
+/-- no reserved bits. -/
+def maskReserved (b : Bytes) : Bytes := b
+
+/-- the two serialisation paths (`to_bytes` and `to_arp_packet().to_bytes()`) agree. -/
+theorem encoders_agree (h : ArpEth) (hw : h.WF) :
+    toBytes h = writeOut h ∧ (toBytes h).length = headerLen h := by
+  obtain ⟨h0, h1, h2, h3, h4⟩ := hw
+  constructor
+  · simp [toBytes, writeOut, toArp, Arp.toBytes, Arp.hwSize, Arp.protoSize, h1, h2, h3, h4,
+      List.take_of_length_le]
+    exact ⟨rfl, rfl⟩
+  · simp [toBytes, headerLen, h1, h2, h3, h4]
+
+def decode_encode_full_statement : Prop :=
+  ∀ (h : ArpEth) (tail : Bytes), h.WF → fromSlice (toBytes h ++ tail) = .ok (h, tail)
+def encode_decode_full_statement : Prop :=
+  ∀ (b rest : Bytes) (h : ArpEth), fromSlice b = .ok (h, rest) →
+    toBytes h = maskReserved (b.take (headerLen h)) ∧ fromSlice (toBytes h ++ rest) = .ok (h, rest)
+
+example : ArpEth.sampleMax.WF := by decide
+
+end ArpEth
+
+/-! ## ARP, MACsec, ICMPv4, ICMPv6: modelled and tied to the code by the correspondence runs;
+    round-trip theorems stated, not proved yet.  `write` is `write_all(&self.to_bytes())` in the
+    crate for all four, so `toBytes = writeOut` holds by definition of the model. -/
+namespace Arp
+open EpModel.Codec.Arp
+/-- no reserved bits. -/
+def maskReserved (b : Bytes) : Bytes := b
+theorem encoders_agree_write (h : Arp) : toBytes h = writeOut h := rfl
+def decode_encode_full_statement : Prop :=
+  ∀ (h : Arp) (tail : Bytes), h.WF → fromSlice (toBytes h ++ tail) = .ok (h, tail)
+def encode_decode_full_statement : Prop :=
+  ∀ (b rest : Bytes) (h : Arp), fromSlice b = .ok (h, rest) →
+    toBytes h = maskReserved (b.take (headerLen h)) ∧ fromSlice (toBytes h ++ rest) = .ok (h, rest)
+example : Arp.sampleMax.WF := by
+  refine ⟨by decide, by decide, by decide, ?_, ?_, ?_, ?_⟩ <;> simp only [Arp.sampleMax, List.length_replicate] <;> omega
+example : Arp.sampleEmpty.WF := by decide
+example : fromSlice (toBytes Arp.sampleEmpty ++ [7]) = .ok (Arp.sampleEmpty, [7]) := by rfl
+end Arp
+
+namespace Macsec
+open EpModel.Codec.Macsec
+/-- the two upper bits of the short length byte are reserved (written as zero, ignored). -/
+def maskReserved (b : Bytes) : Bytes := mapAt b 1 (· &&& 0x3F)
+theorem encoders_agree_write (h : Macsec) : toBytes h = writeOut h := rfl
+def decode_encode_full_statement : Prop :=
+  ∀ (h : Macsec) (tail : Bytes), h.WF → fromSlice (toBytes h ++ tail) = .ok (h, tail)
+def encode_decode_full_statement : Prop :=
+  ∀ (b rest : Bytes) (h : Macsec), fromSlice b = .ok (h, rest) →
+    toBytes h = maskReserved (b.take (headerLen h)) ∧ fromSlice (toBytes h ++ rest) = .ok (h, rest)
+example : Macsec.sampleMax.WF := by decide
+example : Macsec.sampleEnc.WF := by decide
+example : fromSlice (toBytes Macsec.sampleMax ++ [1, 2]) = .ok (Macsec.sampleMax, [1, 2]) := by rfl
+example : fromSlice (toBytes Macsec.sampleEnc ++ [1, 2]) = .ok (Macsec.sampleEnc, [1, 2]) := by rfl
+end Macsec
+
+namespace Icmp4
+open EpModel.Codec.Icmp4
+/-- unused bytes 5–8 of the typed variants that carry no field there (RFC 792 / RFC 1191). -/
+def maskReserved (b : Bytes) : Bytes :=
+  let t := bAt b 0
+  let c := bAt b 1
+  if t = 3 ∧ c ≤ 15 then (if c = 4 then zeroRange b 4 2 else zeroRange b 4 4)
+  else if t = 11 ∧ c ≤ 1 then zeroRange b 4 4
+  else if t = 12 ∧ c ≤ 2 then (if c = 0 then zeroRange b 5 3 else zeroRange b 4 4)
+  else b
+theorem encoders_agree_write (h : Icmp4) : toBytes h = writeOut h := rfl
+/-- timestamp messages are accepted only as exactly 20 bytes, hence `tail = []` for them. -/
+def decode_encode_full_statement : Prop :=
+  ∀ (h : Icmp4) (tail : Bytes), h.WF → (headerLen h = 20 → tail = []) →
+    fromSlice (toBytes h ++ tail) = .ok (h, tail)
+def encode_decode_full_statement : Prop :=
+  ∀ (b rest : Bytes) (h : Icmp4), fromSlice b = .ok (h, rest) →
+    toBytes h = maskReserved (b.take (headerLen h)) ∧ fromSlice (toBytes h ++ rest) = .ok (h, rest)
+example : Icmp4.sampleMax.WF := by decide
+example : Icmp4.sampleUnknown.WF := by decide
+example : Icmp4.sampleFrag.WF := by decide
+example : fromSlice (toBytes Icmp4.sampleMax) = .ok (Icmp4.sampleMax, []) := by rfl
+example : fromSlice (toBytes Icmp4.sampleFrag ++ [9]) = .ok (Icmp4.sampleFrag, [9]) := by rfl
+end Icmp4
+
+namespace Icmp6
+open EpModel.Codec.Icmp6
+/-- unused / reserved parts of bytes 5–8 of the typed variants (RFC 4443, RFC 4861). -/
+def maskReserved (b : Bytes) : Bytes :=
+  let t := bAt b 0
+  let c := bAt b 1
+  if (t = 1 ∧ c ≤ 6) ∨ (t = 3 ∧ c ≤ 1) ∨ (c = 0 ∧ (t = 133 ∨ t = 135 ∨ t = 137)) then zeroRange b 4 4
+  else if t = 134 ∧ c = 0 then mapAt b 5 (· &&& 0xC0)
+  else if t = 136 ∧ c = 0 then zeroRange (mapAt b 4 (· &&& 0xE0)) 5 3
+  else b
+theorem encoders_agree_write (h : Icmp6) : toBytes h = writeOut h := rfl
+/-- slices longer than `u32::MAX` are rejected by the decoder. -/
+def decode_encode_full_statement : Prop :=
+  ∀ (h : Icmp6) (tail : Bytes), h.WF → 8 + tail.length ≤ 4294967295 →
+    fromSlice (toBytes h ++ tail) = .ok (h, tail)
+def encode_decode_full_statement : Prop :=
+  ∀ (b rest : Bytes) (h : Icmp6), fromSlice b = .ok (h, rest) →
+    toBytes h = maskReserved (b.take (headerLen h)) ∧ fromSlice (toBytes h ++ rest) = .ok (h, rest)
+example : Icmp6.sampleMax.WF := by decide
+example : Icmp6.sampleRa.WF := by decide
+example : Icmp6.sampleUnknown.WF := by decide
+example : fromSlice (toBytes Icmp6.sampleRa ++ [9]) = .ok (Icmp6.sampleRa, [9]) := by rfl
+end Icmp6
+
 end EpModel.Props.C08Link
